@@ -173,6 +173,13 @@ PROPS = {
     "C30": clu(_C + "half of the operations are run-and-wait requests (count 1-3, stdin or not) against engines scripted with log lines, exit codes and log/wait failures, plus one injected failure on an engine Logs/Attach/Wait call; " + _NT,
                quick={"seconds": 40, "runs": 1200, "sweep": "err:3"}, thorough={"seconds": 900, "runs": 40000, "sweep": "err:all"},
                probes=["lambda_stream_closed", "lambda_exit_code_reported"]),
+    "C34": clu("one evaluation = one concurrent history of 7-14 calls by 2-4 client tasks (create, remove spanning several workloads and nodes, dissociate, realloc, replace, control, set-node, add/remove node and pod, capacity, node-resource check, and ListPods / GetNode / GetWorkloadsStatus / Send through the RPC layer) against one simulated cluster, "
+               "in a build with the Go race detector; the scheduler releases parked calls in batches of 1-4 whose members run one after the other but are not ordered by any hand-off, so the detector treats their segments as concurrent; "
+               "every detector report whose two accesses are made by core code (directly or inside library code core called) is a violation; non-trivial = at least one workload created; distinct = distinct seam-trace hash",
+               level="exploration", quick={"seconds": 50, "runs": 4000}, thorough={"seconds": 1200, "runs": 400000}, race=True,
+               probes=["op_remove", "op_rpc_pods", "op_rpc_send", "race_reports"],
+               assumptions=CLU_ASSUME[:2] + ["race build (-race) with the runtime's scheduler randomisation compiled out through a build overlay (const randomizeScheduler), GOMAXPROCS=1, GC off",
+                                            "only races between segments released in one batch, or involving goroutines that do not pass a seam in between, are visible; synchronisation inside the simulated servers (their mutexes) adds happens-before edges a real network would not"]),
     "C04": res(_R, extra_probes=["bound_instance"]),
     "C05": res(_R, extra_probes=["bound_instance"]),
     "C06": res(_R, extra_probes=["direct_plugin_calls"]),
@@ -227,6 +234,7 @@ MANIFEST_TEXT = {
     "C21": {"text": "The node set an operation acts on (observed through DUMMY capacity with a request every node satisfies, and through plans) must equal a reference filter over the simulated store state, with node availability driven by heartbeat TTLs on the virtual clock.", "note": _NOTE_CLU + " No schedule or fault dimension in the property itself: invariant monitor inside simulated histories."},
     "C22": {"text": "Concurrent histories of pod/node/workload calls on overlapping names under seeded schedules (random, sticky, PCT) with at most one injected failure; at quiescence every node has a resource record and vice versa, every node's pod exists, no removed pod has nodes, every workload's node exists and listing workloads succeeds. Four races found by this check are recorded as known findings (see known_findings.json).", "note": _NOTE_CLU},
     "C30": {"text": "Run-and-wait requests against engines with scripted log/wait outcomes: the stream closes, the last message per workload is its exit code (or an error), and afterwards record, container, usage and the create-lambda log entry are gone.", "note": _NOTE_CLU},
+    "C34": {"text": "The simulated cluster in a race-detector build under batch-release scheduling: concurrent API histories are explored by seed and every data-race report attributed to core code is a violation with the two stacks as evidence and the seed/schedule as replay. Found and fixed two races (RPC task counter, shared err in RemoveWorkload's per-node goroutines).", "note": _NOTE_CLU + " The race detector decides happens-before, the simulator decides which segments are unordered; races between segments the scheduler never co-releases are not visible. The harness' own unsynchronised bookkeeping is reported by the detector too and is filtered out by stack attribution (counted in the evidence as race_reports_outside_core)."},
     "C04": {"text": _MON + " Oracle: the instances of every accepted Alloc/Realloc fit jointly into the pre-state's free cores, NUMA memory and total memory (valid pre-states only).", "note": _NOTE_RES},
     "C05": {"text": _MON + " Oracle: pieces of every bound instance = round(cpu*shareBase), at most one fractional core, recorded amount agrees.", "note": _NOTE_RES},
     "C06": {"text": _MON + " Liveness is decided by a deterministic step budget: every loop of the plugin's planner is instrumented (scratch copy only) and a call that exceeds 1e6 iterations, or panics, is a violation with a replayable input.", "note": _NOTE_RES + " Loop ticks are inserted by tools/maporder into the scratch copy, not into /repo."},
